@@ -1607,7 +1607,10 @@ def shared_scopes(R, namings, kinds, scalable):
     h2gs = [("left", True, False), ("middle", True, True), ("right", 7, False), ("left", None, True)]
     csvs = [(True, ",", None, "func"), (False, ";", "a header", "ToCSV"), (True, ";", None, "ToCSV-ctx"),
             (False, ",", None, "func"), (True, ",", "a header", "ToCSV-rowend")]
-    hshapes = list(shapes(maxb, (2, 3))) if T else list(shapes(3, (2,))) + list(shapes(2, (3,))) + [[3, 2, 1], [2, 3, 2], [1, 3, 3]]
+    if T:
+        hshapes = list(shapes(4, (2,))) + list(shapes(3, (3,))) + [[4, 1, 2], [1, 4, 1], [2, 2, 4], [4, 3, 1]]
+    else:
+        hshapes = list(shapes(3, (2,))) + list(shapes(2, (3,))) + [[3, 2, 1], [2, 3, 2], [1, 3, 3]]
     R.scope("histogram operations on shared lists",
             "%s; every sharing of one list object inside the histogram: "
             "any two rows bins[i] / bins[j], all rows, (3 dimensions) any two inner rows bins[i][j] / bins[k][l], all inner "
@@ -1616,8 +1619,9 @@ def shared_scopes(R, namings, kinds, scalable):
             "add with the sharing in a, in b, in both, and with b a second histogram object over a's very lists (weights "
             "and call styles rotating, incl. a.add(a)), hist_to_graph, the three iterators, CSV (2 dimensions); options "
             "rotate with the case number; every case also runs on the same values in separate lists"
-            % ("all shapes with 1..4 bins per axis in 2..3 dimensions" if T else "all 2-dimensional shapes with 1..3 bins per axis, all "
-               "3-dimensional ones with 1..2 bins per axis and 3x2x1, 2x3x2, 1x3x3", "" if T else " alternating"), True)
+            % ("all 2-dimensional shapes with 1..4 bins per axis, all 3-dimensional ones with 1..3 bins per axis and 4x1x2, 1x4x1, "
+               "2x2x4, 4x3x1" if T else "all 2-dimensional shapes with 1..3 bins per axis, all 3-dimensional ones with 1..2 bins "
+               "per axis and 3x2x1, 2x3x2, 1x3x3", "" if T else " alternating"), True)
     for shp in hshapes:
         for al in hist_sharings(shp):
             for pn in (("int", "float") if T else (("int", "float")[next(rot) % 2],)):
